@@ -238,6 +238,23 @@ def check_pair(case: dict[str, Any], col: common.Collector) -> None:
                                       f"{dict(zip(PARAMS[:d], g))}: the lambda's value differs "
                                       "from NumPy's broadcast", wit)
                         break
+        # an integer index into the symbolic axis: accepted only if it is within bounds for
+        # EVERY admissible size (sign reasoning over n >= 0, n = 0 included)
+        if isinstance(f1, pt.Array):
+            for i in (-3, -2, -1, 0, 1, 2):
+                col.count("mon.index_decisions")
+                try:
+                    x[i]
+                except Exception:  # noqa: BLE001  (refusing is always sound)
+                    continue
+                bad = [g for g in itertools.product((0, 1, 2, 5), repeat=d)
+                       if not (-aff_val(e1c, g) <= i < aff_val(e1c, g))]
+                if bad:
+                    col.violation("C16:index-acceptance:out-of-bounds-at-admissible-size",
+                                  f"x[{i}] on an axis of length {e1c} is accepted, but at sizes "
+                                  f"{dict(zip(PARAMS[:d], bad[0]))} the axis has length "
+                                  f"{aff_val(e1c, bad[0])} (NumPy: IndexError)", wit)
+                    break
         # shapes of unequal rank are never equal, whatever their common prefix
         col.count("mon.acceptance_decisions")
         z = pt.make_placeholder("z", (f1,), np.float64)
